@@ -451,7 +451,14 @@ void do_strto(Toks& in, Out& impl, Out& ref, EtlF etlf, LibF libf)
         R v           = etlf(t.p, null_out ? nullptr : &e, base);
         o.tok("v");
         val(o, v);
-        if (!null_out) { o.num(e - t.p); }
+        // an end pointer the call did not store is reported as such (never as an address difference)
+        if (!null_out) {
+            if (e == nullptr) {
+                o.tok("end-not-stored");
+            } else {
+                o.num(e - t.p);
+            }
+        }
     });
     if (base == 0 || (base >= 2 && base <= 36)) {
         char* e = nullptr;
